@@ -140,7 +140,9 @@ impl EventGen for Container {
                 let mut new_el = self.0.clone();
                 // Special case <svg> elements with an xmlns attribute - passed through
                 // transparently, with no bbox calculation.
-                if new_el.name == "svg" && new_el.get_attr("xmlns").is_some() {
+                if new_el.name == "svg"
+                    && new_el.get_attr("xmlns").as_deref() == Some("http://www.w3.org/2000/svg")
+                {
                     return Ok((self.0.all_events(context).into_raw_output(), None));
                 }
                 new_el.eval_attributes(context)?;
